@@ -21,7 +21,8 @@ from vp.harness import Result, ok, under_test, violation
 
 PROPERTY = "C18"
 RULE = (
-    "Hypothesis draws (summand tree, index pools, substitution map, subs|xreplace). "
+    "Hypothesis draws (summand tree, index pools, substitution map, subs|xreplace, whether the key symbols of the map "
+    "are the cached objects or equal-but-distinct ones created after sympy's cache was cleared). "
     "Non-trivial: (>=2 indices or a nested PoolSum) and the summand depends on >=1 of its"
     " indices. Distinct = distinct descriptor hash."
 )
@@ -102,6 +103,9 @@ def strategy(tier):
             unique_by=lambda kv: kv[0],
         ),
         "mode": st.sampled_from(["subs", "xreplace"]),
+        # the key symbols of the substitution are equal to, but not the same objects as, the symbols inside the
+        # sum (SymPy's symbol cache is an LRU cache that large models overflow; here it is cleared explicitly)
+        "fresh_key_objects": st.booleans(),
     })
 
 
@@ -113,6 +117,8 @@ def fixed_cases(tier):
         {"expr": ["f", ["sym", "i"], ["sym", "j"]], "indices": [["i", ["1", "2"]], ["j", ["0", "1"]]],
          "subs": [["i", ["num", "3"]]], "mode": "xreplace"},
         {"expr": ["sym", "x"], "indices": [["i", ["0", "1", "2"]]], "subs": [], "mode": "subs"},
+        {"expr": ["f", ["sym", "i"], ["sym", "j"]], "indices": [["i", ["1", "2"]], ["j", ["0", "1"]]],
+         "subs": [["i", ["num", "3"]]], "mode": "subs", "fresh_key_objects": True},
         # shadowing with a literal equal to the outer value
         {"expr": ["sum", ["add", ["f", ["sym", "i"], ["sym", "i"]], ["num", "3"]], [["i", ["1", "2"]]]],
          "indices": [["i", ["3"]]], "subs": [], "mode": "subs"},
@@ -346,6 +352,11 @@ def run_case(desc) -> Result:
     if mode == "subs":
         # sequential substitution: keep values free of the keys so that order is irrelevant
         pairs = [(n, v) for n, v in pairs if not ({str(s) for s in v.free_symbols} & keys)]
+    if desc.get("fresh_key_objects") and pairs:
+        from sympy.core.cache import clear_cache  # noqa: PLC0415
+
+        clear_cache()
+        labels.append("key_symbols_equal_but_not_identical")
     mapping = {_sym(n): v for n, v in pairs}
     if mapping:
         hits_bound = bool({n for n, _ in pairs} & all_bound)
